@@ -1,7 +1,7 @@
 (* C18 - Rule arguments, file names, chain offsets and the CRS root resolve
    consistently.  Statements only; proofs are in Proofs/. *)
 From Coq Require Import String.
-From Verif Require Import Base.Str Model.RuleId Model.Root Proofs.RuleIdProofs Proofs.RootProofs.
+From Verif Require Import Base.Str Base.Outcome Model.RuleId Model.Root Model.Update Model.Renumber Model.Cli Proofs.RuleIdProofs Proofs.RootProofs Proofs.CliProofs Proofs.CliResolveProofs.
 From Verif Require Gen.Consts.
 (* pins: the theorems below speak about the code as long as these still hold *)
 From Verif Require Tie.Pin_RuleIdFileNameRegex_src Tie.Pin_lits_cmd_regex_parseRuleId
@@ -54,3 +54,37 @@ Theorem C18_root_fails_iff_none : forall has start,
   forall d, (d <> [] /\ exists rest, start = d ++ rest) -> has_ra has d = false.
 Proof. exact find_root_none. Qed.
 Print Assumptions C18_root_fails_iff_none.
+
+(* ---------- the two ways of naming a rule agree (whole commands on the tree model) ---------- *)
+(* an assembly file NAME.ra directly below regex-assembly is addressed by `update --all` with exactly
+   the rule id, chain offset and file that `update NAME.ra` resolves: the one-file walk IS the
+   single-rule command (same tree, same exit status) *)
+Theorem C18_update_all_addresses_a_file_as_the_argument_does :
+  forall gen bits t name, suffixb $".ra" name = true -> addressed (d_assembly ++ [name]) <> None ->
+  update_all gen bits [d_assembly ++ [name]] t = update_one gen bits t name.
+Proof. exact update_all_single_is_update_one. Qed.
+Print Assumptions C18_update_all_addresses_a_file_as_the_argument_does.
+
+(* NAME and NAME.ra name the same rule *)
+Theorem C18_update_argument_with_or_without_extension :
+  forall gen bits t name, suffixb $".ra" name = false -> match_rule_id_file_name name <> None ->
+  match_rule_id_file_name (name ++ $".ra") = match_rule_id_file_name name ->
+  update_one gen bits t (name ++ $".ra") = update_one gen bits t name.
+Proof. exact update_one_with_or_without_extension. Qed.
+Print Assumptions C18_update_argument_with_or_without_extension.
+
+(* compare --all records for the file the verdict `compare ARG` computes *)
+Theorem C18_compare_all_addresses_a_file_as_the_argument_does :
+  forall gen bits t name r, suffixb $".ra" name = true -> addressed (d_assembly ++ [name]) <> None ->
+  parse_rule_id bits name = Some r ->
+  compare_all gen bits [d_assembly ++ [name]] t [] =
+  (do v <- compare_rule gen t (r_id r) (r_chain r) (d_assembly ++ [r_file r]);
+   Ok (match v with Some b => [b] | None => [] end)).
+Proof. exact compare_all_single_is_compare_rule. Qed.
+Print Assumptions C18_compare_all_addresses_a_file_as_the_argument_does.
+
+Theorem C18_resolve_example :
+  addressed [$"regex-assembly"; $"942100-chain2.ra"] = Some ($"942100", $"2") /\
+  suffixb $".ra" $"942100-chain2.ra" = true /\
+  match_rule_id_file_name ($"942100-chain2" ++ $".ra") = match_rule_id_file_name $"942100-chain2".
+Proof. exact resolve_example. Qed.
